@@ -217,7 +217,7 @@ theorem inv_step {s s' : St} (hinv : Inv s) (hstep : Step s s') : Inv s' := by
     · intro x hx hf hh; have := nFreeing_pos_of_mem (fl := s.fl) hx hf; omega
     · intro b' hb' x hx hf hh; have := nFreeing_pos_of_mem (fl := s.fl) hx hf; omega
     · intro hc; rw [h'] at hc; cases hc
-  | procGiveUp b ho hf =>
+  | procGiveUp b ho =>
     obtain ⟨hnd, hfr, hpu, hown, hno, ho1⟩ := hinv
     rw [nodup_iff_count] at hnd
     refine ⟨?_, hfr, ?_, ?_, ?_, by simp⟩
@@ -226,7 +226,7 @@ theorem inv_step {s s' : St} (hinv : Inv s) (hstep : Step s s') : Inv s' := by
     · intro x hx hf' hh; have := hpu x hx hf' hh
       simp only [ho, List.map_cons, List.map_nil, List.mem_append, List.mem_cons, List.mem_nil_iff, or_false] at this ⊢; grind
     · intro b' hb'; simp at hb'
-    · intro hc; rw [hf] at hc; cases hc
+    · intro _; simp
   | procFree b ho =>
     obtain ⟨hnd, hfr, hpu, hown, hno, ho1⟩ := hinv
     rw [nodup_iff_count] at hnd
